@@ -249,6 +249,14 @@ type DepKey struct {
 	Parent int // index of first-level key, -1 if this is first level
 }
 
+// addMarkers adds the marker attributes of a dependent body: they are visible
+// to a feature iff that feature sees this dependent body (C16).
+func (g *G) addMarkers(body *schema.BodySchema) {
+	g.n++
+	body.Attributes[fmt.Sprintf("dep_%d_marker", g.n)] = &schema.AttributeSchema{IsRequired: true, Constraint: schema.LiteralType{Type: cty.String}, Description: g.desc("depmarker")}
+	body.Attributes[fmt.Sprintf("dep_%d_ref", g.n)] = &schema.AttributeSchema{IsRequired: true, Constraint: schema.Reference{OfScopeId: g.scope()}, Description: g.desc("depref")}
+}
+
 // Block draws a block schema.
 func (g *G) Block(depth int, top bool) *schema.BlockSchema {
 	bs := &schema.BlockSchema{Description: g.desc("block"), Type: schema.BlockType(g.pick(5)), IsDeprecated: g.coin(0.08)}
@@ -357,8 +365,7 @@ func (g *G) addDependent(bs *schema.BlockSchema, depth int) {
 			body.Attributes = map[string]*schema.AttributeSchema{}
 		}
 		// marker attribute: visible iff this dependent body is in force (C16)
-		body.Attributes[fmt.Sprintf("dep_%d_marker", g.n)] = &schema.AttributeSchema{IsOptional: true, Constraint: schema.LiteralType{Type: cty.String}, Description: g.desc("depmarker")}
-		g.n++
+		g.addMarkers(body)
 		bs.DependentBody[k.Key] = body
 		info.Keys = append(info.Keys, k)
 		// second level keyed by an attribute of the first level body
@@ -382,8 +389,7 @@ func (g *G) addDependent(bs *schema.BlockSchema, depth int) {
 					b2.Attributes = map[string]*schema.AttributeSchema{}
 				}
 				b2.Attributes[name] = g.depKeyAttr(kind)
-				b2.Attributes[fmt.Sprintf("dep_%d_marker", g.n)] = &schema.AttributeSchema{IsOptional: true, Constraint: schema.LiteralType{Type: cty.String}, Description: g.desc("depmarker")}
-				g.n++
+				g.addMarkers(b2)
 				bs.DependentBody[k2.Key] = b2
 				info.Keys = append(info.Keys, k2)
 			}
